@@ -359,9 +359,9 @@ impl Runner {
         }
     }
 
-    /// Run one case in the worker; returns (answer, CPU seconds the worker spent on it).
+    /// Run one case in the worker; returns (answer, wall seconds).
     ///
-    /// Watchdog: a case is a `hang` when the worker has burnt ≥ 2 s of CPU time on it (the inputs are
+    /// Watchdog: a case is a `hang` when the worker has burnt ≥ 2 s of CPU time on it (counted from 250 ms on) (the inputs are
     /// ≤ ~2 MB and decode in milliseconds), or has not answered after 120 s of wall time. Measuring CPU
     /// time rather than wall time keeps the verdict stable on a heavily loaded machine.
     fn run(&mut self, mode: &str, hex: &str) -> (String, f64) {
@@ -372,10 +372,11 @@ impl Runner {
         let cpu_limit = if self.hangs > 30 { 0.4 } else { 2.0 };
         let w = self.w.as_mut().unwrap();
         let pid = w.child.id();
-        let cpu0 = cpu_secs(pid);
         let t0 = Instant::now();
         let sent = writeln!(w.stdin, "{mode} {hex}").and_then(|_| w.stdin.flush());
         let mut ans = if sent.is_err() { Err(RecvTimeoutError::Disconnected) } else { Err(RecvTimeoutError::Timeout) };
+        // CPU baseline, taken at the first 250 ms timeout (fast cases never touch /proc).
+        let mut base: Option<f64> = None;
         if sent.is_ok() {
             loop {
                 match w.rx.recv_timeout(Duration::from_millis(250)) {
@@ -388,15 +389,16 @@ impl Runner {
                         break;
                     }
                     Err(RecvTimeoutError::Timeout) => {
-                        let used = cpu_secs(pid) - cpu0;
-                        if used >= cpu_limit || t0.elapsed().as_secs_f64() > 120.0 {
+                        let now = cpu_secs(pid);
+                        let b = *base.get_or_insert(now);
+                        if now - b >= cpu_limit || t0.elapsed().as_secs_f64() > 120.0 {
                             break;
                         }
                     }
                 }
             }
         }
-        let used = (cpu_secs(pid) - cpu0).max(0.0);
+        let used = t0.elapsed().as_secs_f64();
         match ans {
             Ok(a) => (a, used),
             Err(RecvTimeoutError::Timeout) => {
@@ -991,7 +993,7 @@ fn run(args: &Args) {
     for a in 0..=255u8 {
         cx.case("exh1", &[a], BUF, false, false, true);
     }
-    let step2 = if th { 1 } else { 3 };
+    let step2 = if th { 1 } else { 5 };
     let mut i = (args.seed % step2 as u64) as u32;
     while i < 65536 {
         cx.case("exh2", &[(i >> 8) as u8, i as u8], BUF, false, false, true);
@@ -1029,7 +1031,7 @@ fn run(args: &Args) {
     }
 
     // (d) structured: valid messages, then the same message with one over-long length
-    let n_struct = if th { 60_000 } else { 6_000 };
+    let n_struct = if th { 30_000 } else { 4_000 };
     for i in 0..n_struct {
         let seed = rng.next_u64();
         let size = 4 + rng.below(60) as i64;
@@ -1077,7 +1079,7 @@ fn run(args: &Args) {
     }
 
     // (e) raw random bytes, biased towards plausible tags
-    let n_rand = if th { 200_000 } else { 20_000 };
+    let n_rand = if th { 100_000 } else { 12_000 };
     for _ in 0..n_rand {
         let cap = if rng.chance(1, 10) { 200 } else { 24 };
         let n = 3 + rng.usize_below(cap);
@@ -1117,7 +1119,7 @@ fn run(args: &Args) {
     cx.runner.kill();
     let _ = std::fs::remove_file(&cx.runner.tmp);
     let note = format!(
-        "outcomes: ok={} err={} hangs={} aborts={}; most CPU time spent on one case {:.3}s (watchdog: 2s CPU)",
+        "outcomes: ok={} err={} hangs={} aborts={}; slowest case {:.3}s wall (watchdog: 2s of CPU time)",
         cx.n_ok, cx.n_err, cx.runner.hangs, cx.runner.aborts, cx.slow
     );
     cx.out.note(&note);
